@@ -116,3 +116,65 @@ class mode_lookup_inverse:
     def witnesses():
         for k in (4, 7, 8):
             yield dict(k=k)
+
+
+# ----------------------------------------------------------------------------- bounded: reading a second document leaves the first chart alone
+
+from pyvc.bounded import replayer  # noqa: E402
+
+_DOC = """AudioFile: a.mp3
+Mode: Keys4
+Title: {title}
+TimingPoints:
+- StartTime: {t0}
+  Bpm: {bpm}
+SliderVelocities: []
+HitObjects:
+{objs}
+"""
+
+
+def _doc(rng):
+    objs = []
+    for _ in range(rng.randrange(1, 5)):
+        t = rng.randrange(0, 5000)
+        if rng.random() < 0.5:
+            objs.append(f"- StartTime: {t}\n  Lane: {rng.randrange(1, 5)}\n  KeySounds: []")
+        else:
+            objs.append(f"- StartTime: {t}\n  Lane: {rng.randrange(1, 5)}\n  EndTime: {t + rng.randrange(1, 900)}\n  KeySounds: []")
+    return _DOC.format(title=rng.choice(["a", "b c"]), t0=rng.randrange(0, 100), bpm=rng.choice([120, 150.5]), objs="\n".join(objs))
+
+
+def _two_docs_fail(case):
+    import random
+    from reamber.quaver.QuaMap import QuaMap
+
+    rng = random.Random(case["seed"])
+    d1, d2 = _doc(rng), _doc(rng)
+    m1 = QuaMap.read(d1.split("\n"))
+    w1 = m1.write()
+    m2 = QuaMap.read(d2.split("\n"))
+    out = []
+    if m1.write() != w1:
+        out.append(("second_read_leaves_first_chart_alone", "the first chart writes differently after a second document was read"))
+    if m2.write() == w1 and d1 != d2 and QuaMap.read(d2.split("\n")).write() != w1:
+        out.append(("second_read_leaves_first_chart_alone", "the second chart denotes the first document"))
+    return out
+
+
+@bounded("C06", note="histories: reading a second .qua document (or creating a second chart) never changes a chart read earlier")
+def qua_charts_are_independent(rep):
+    N = rep.n(40, 400)
+    rep.bound = f"{N} pairs of generated documents read one after the other"
+    rep.rule = "a case is a seed for the pair; all non-trivial"
+    for seed in range(N):
+        case = dict(seed=seed)
+        rep.case(case)
+        for what, d in _two_docs_fail(case):
+            rep.fail(what, case, d)
+
+
+@replayer("qua_charts_are_independent")
+def _r_docs(case, what):
+    hit = [d for w, d in _two_docs_fail(case) if w == what]
+    return (bool(hit), hit[0] if hit else "passes")
